@@ -5,10 +5,13 @@ import FV.Drv.Glb
 -/
 open FV FV.Drv
 
+/-- `powF` at `Rat` (only natural exponents are exact; the `post` op is run at `Float`). -/
+def ratPow (a e : Rat) : Rat := if e.den == 1 && 0 ≤ e.num then a ^ e.num.toNat else 0
+
 def handle (line : String) : String :=
   match splitReq line with
-  | some ("F", op, args) => (glbOp (α := Float) op args).getD "bad-op"
-  | some ("Q", op, args) => (glbOp (α := Rat) op args).getD "bad-op"
+  | some ("F", op, args) => (glbOp (α := Float) Float.pow op args).getD "bad-op"
+  | some ("Q", op, args) => (glbOp (α := Rat) ratPow op args).getD "bad-op"
   | _ => "bad-op"
 
 def main : IO Unit := mainLoop handle
